@@ -248,11 +248,15 @@ CLAIMED = {
         "short reads, std::io::Take, the ZipCrypto reader (key state = function of the bytes consumed) and Crc32Reader, "
         "composes (source->Take->ZipCrypto->Crc32 stack theorem), and is lifted by induction to every schedule of caller "
         "buffer sizes including zero-length reads: a completed run returns exactly the denoted bytes, end of file is "
-        "sticky, two complete runs agree (chunk independence), and a Bad stream never completes.  Correspondence: "
+        "sticky, two complete runs agree (chunk independence), and a Bad stream never completes.  Writer side: for every "
+        "failure-free plan of short writes, write_all on the sink and the field-by-field header writes leave the bytes, "
+        "position and result of a sink that accepts everything at once (put_at_app: overwriting then continuing = "
+        "overwriting the concatenation), and the ZipWriter write call on a stored entry writes, counts and hashes all "
+        "of its argument whatever each inner write took.  Correspondence: "
         "reader model vs crate under explicit short-read plans and caller schedules on all methods and encryptions "
         "(uniform chunks, one short read at every byte position, random plans, refill patterns), short reads from the "
-        "first byte of the archive compared with the unfragmented run.",
-   note="Trusted: Coq kernel, extraction+driver, harness. The AES layer's streams lemma and the writer-side (short writes) theorems are not yet proved: AES and compressed entries are exercised by the correspondence/oracle only; decoder chunk independence is an assumption.",
+        "first byte of the archive compared with the unfragmented run; writer programs under short-write plans compared byte-for-byte with the unchunked run.",
+   note="Trusted: Coq kernel, extraction+driver, harness. The AES reader's lemma is relative to abstract block-cipher/MAC parameters. Whole writer programs under short writes (compressing and encrypting arms, finish) are compared byte-for-byte with the unchunked run by the correspondence, not proved; decoder chunk independence is an assumption.",
    technique="Coq proof (compositional stream denotations lifted by induction over schedules) + schedule-enumeration correspondence",
    design="8 (C09)"),
  "C12": dict(
